@@ -4,7 +4,7 @@ from sim.util import derive_rng, pick, wpick
 
 LEVEL = 'exploration'
 BUDGET = {
-    'quick': dict(runs=240, wall=420, timeout=300, det=4, minimise=40),
+    'quick': dict(runs=240, wall=420, timeout=600, det=4, minimise=40),
     'thorough': dict(runs=4000, wall=3000, timeout=600, det=16, minimise=200),
 }
 RULE = ('Each run = one algorithm in {OGD, ADA, S_ADA, ADA_FD, FD_SON, RFD_SON} '
